@@ -32,3 +32,6 @@ pub use worker::GCWorker;
 pub(crate) use worker::GCWorkerShared;
 
 pub(crate) mod gc_work;
+
+#[cfg(feature = "mmtk_verif")]
+pub(crate) use worker::verif_set_worker_ordinal;
